@@ -103,6 +103,8 @@ class Models:
 
                 def opm(I, a, opn=opn, tyc=tyc):
                     x, y = deref(a[0]), deref(a[1])
+                    if opn == 'Add' and isinstance(x, StringObj):   # String + &str
+                        return StringObj(list(x.buf) + list(as_bytes(y)))
                     if opn in ('Add', 'Sub', 'Mul') and not is_sym(x) and not is_sym(y):
                         r = I.binop(opn + 'WithOverflow', x, y, tyc)
                         if r[1]:
@@ -118,6 +120,9 @@ class Models:
                 def opa(I, a, opn=opn, tyc=tyc):
                     slot = a[0].slot
                     x, y = slot.get(), deref(a[1])
+                    if opn == 'Add' and isinstance(x, StringObj):   # String += &str
+                        x.buf.extend(as_bytes(y))
+                        return Agg()
                     if opn in ('Add', 'Sub', 'Mul') and not is_sym(x) and not is_sym(y):
                         r = I.binop(opn + 'WithOverflow', x, y, tyc)
                         if r[1]:
@@ -696,6 +701,11 @@ def conv_from(I, a):
     d = deref(v)
     if isinstance(d, StrRef) and 'String' in I.cur_func:
         return StringObj(list(d.bytes()))
+    if re.search(r'String as std::convert::From<char>>::from$', I.cur_func) and isinstance(d, int):
+        return StringObj(encode_char(d))
+    m = re.search(r'<(\w+) as std::convert::From<(\w+)>>::from$', I.cur_func)
+    if m and m.group(1) in INT_W and m.group(2) in INT_W and is_sym(d) and INT_W[m.group(1)] > d.size():
+        return z3.SignExt(INT_W[m.group(1)] - d.size(), d) if m.group(2) in SIGNED else z3.ZeroExt(INT_W[m.group(1)] - d.size(), d)
     return v
 
 
@@ -1030,7 +1040,7 @@ def into_iter(I, a):
             return Iter('range', pos=v[0], end=v[1] + 1)
         if ty.endswith('RangeFrom'):
             return Iter('range', pos=v[0], end=1 << 64)
-        if ty.endswith('Range') or (len(v) == 2 and all(isinstance(x, int) for x in v)):
+        if ty != '[array]' and (ty.endswith('Range') or (len(v) == 2 and all(isinstance(x, int) for x in v))):
             return Iter('range', pos=v[0], end=v[1])
         return Iter('into_iter', lst=list(v), pos=0, end=len(v))
     if isinstance(v, Ref):
@@ -1045,7 +1055,7 @@ def into_iter(I, a):
             return Iter('slice_iter', lst=d.items, pos=0, end=len(d.items))
         if isinstance(d, Agg):
             ty = d.ty or ''
-            if 'Range' in ty or (len(d) == 2 and all(isinstance(x, int) for x in d)):
+            if ty != '[array]' and ('Range' in ty or (len(d) == 2 and all(isinstance(x, int) for x in d))):
                 # `for x in &mut range` / by_ref: iterate the range in place
                 it = into_iter(I, [d])
                 return it
@@ -1470,15 +1480,29 @@ def _(I, a):
             return some(i)
 
 
+def _acc_ty(I):
+    m = re.search(r'::(?:sum|product)::<(\w+)>$', I.cur_func)
+    return m.group(1) if m and m.group(1) in INT_W else 'usize'
+
+
+def _acc_check(I, ty, v, what):
+    if not is_sym(v):
+        lo, hi = _rng(ty)
+        if not lo <= v <= hi:
+            raise RustPanic(f'attempt to {what} with overflow')
+    return v
+
+
 @itermethod('sum')
 def _(I, a):
     it = as_iter(I, a[0])
+    ty = _acc_ty(I)
     s = 0
     while True:
         v = it_next(I, it)
         if v is None:
             return s
-        s = s + deref(v)
+        s = _acc_check(I, ty, s + deref(v), 'add')
 
 
 def _extreme(I, a, pick_max):
@@ -1802,6 +1826,11 @@ def collect(I, a):
             else:
                 buf.extend(encode_char(x))
         return StringObj(buf)
+    if target.startswith('std::collections::BTreeSet'):
+        so = SetObj(out)
+        so.raw = True
+        so.sorted = True
+        return so
     if target.startswith('std::collections::HashSet'):
         so = SetObj(out)
         so.raw = True   # may still hold duplicates: membership does not care, len / iteration remove them first (set_dedup)
@@ -2529,6 +2558,8 @@ def set_dedup(I, s):
                 out.append(v)
         s.items[:] = out
         s.raw = False
+    if getattr(s, 'sorted', False):    # BTreeSet: iteration in key order (concrete keys only)
+        s.items.sort(key=lambda v: _sort_key_concrete(v, I))
     return s
 
 
@@ -2875,12 +2906,13 @@ def _(I, a):
 @model('core::str::<impl str>::split_whitespace', 'core::str::<impl str>::split_ascii_whitespace')
 def _(I, a):
     s = as_str(a[0])
+    ascii_only = 'split_ascii_whitespace' in I.cur_func
     out = []
     i = s.start
     cur = None
     while i < s.end:
         c, w = decode_at(I, s, i)
-        if is_ws_char(I, c):
+        if (I.branch(b_or(b_eq(c, v_) for v_ in (9, 10, 12, 13, 32))) if ascii_only else is_ws_char(I, c)):
             if cur is not None:
                 out.append(StrRef(s.buf, cur, i))
                 cur = None
@@ -3196,12 +3228,13 @@ def _(I, a):
 @itermethod('product')
 def _(I, a):
     it = as_iter(I, a[0])
+    ty = _acc_ty(I)
     s = 1
     while True:
         v = it_next(I, it)
         if v is None:
             return s
-        s = s * deref(v)
+        s = _acc_check(I, ty, s * deref(v), 'multiply')
 
 
 @itermethod('is_empty')
@@ -3696,3 +3729,425 @@ def _(I, a):
         return NONE()
     v = deref(o.fields[0])
     return some(as_str(v) if isinstance(v, (StringObj, StrRef)) else v)
+
+
+# ---------------- user-defined iterators, fmt::Write, more containers -----------------
+_as_iter_prev = as_iter
+
+
+def as_iter(I, v):  # noqa: F811
+    d = deref(v)
+    if isinstance(d, Agg) and d.ty and d.ty != '[array]' and (strip_generics(d.ty), 'Iterator', 'next') in I.impls:
+        # a struct of the analysed crate that implements Iterator: `next` is its own code
+        return Iter('user', obj=d, ty=strip_generics(d.ty))
+    return _as_iter_prev(I, v)
+
+
+_into_iter_prev = into_iter
+
+
+def into_iter(I, a):  # noqa: F811
+    d = deref(a[0])
+    if isinstance(d, Agg) and d.ty and d.ty != '[array]' and (strip_generics(d.ty), 'Iterator', 'next') in I.impls:
+        return Iter('user', obj=d, ty=strip_generics(d.ty))
+    return _into_iter_prev(I, a)
+
+
+_it_next_prev2 = it_next
+
+
+def it_next(I, it):  # noqa: F811
+    if it.kind == 'user':
+        r = I.call(I.impls[(it.ty, 'Iterator', 'next')], [Ref(Slot([it.obj], 0))])
+        return None if r.variant == 'None' else r.fields[0]
+    if it.kind == 'cycle':
+        if not it.items:
+            return None
+        v = it.items[it.pos % len(it.items)]
+        it.pos += 1
+        return v
+    return _it_next_prev2(I, it)
+
+
+@itermethod('cycle')
+def _(I, a):
+    it = as_iter(I, a[0])
+    items = []
+    while True:
+        v = it_next(I, it)
+        if v is None:
+            break
+        items.append(v)
+        if len(items) > 100000:
+            raise Unsupported('cycle over a very long iterator')
+    return Iter('cycle', items=items, pos=0)
+
+
+def _by_cmp(I, a, pick_max):
+    import functools
+    it = as_iter(I, a[0])
+    best = None
+    while True:
+        v = it_next(I, it)
+        if v is None:
+            break
+        if best is None:
+            best = v
+            continue
+        r = I.call_closure(a[1], [Ref(Slot([best], 0)), Ref(Slot([v], 0))])
+        # max_by returns the last maximum, min_by the first minimum
+        if pick_max and r.variant != 'Greater':
+            best = v
+        if not pick_max and r.variant == 'Greater':
+            best = v
+    return NONE() if best is None else some(best)
+
+
+ITER_METHODS['max_by'] = lambda I, a: _by_cmp(I, a, True)
+ITER_METHODS['min_by'] = lambda I, a: _by_cmp(I, a, False)
+
+
+@model('<std::string::String as std::fmt::Write>::write_fmt')
+def _(I, a):
+    deref(a[0]).buf.extend(render_args(I, a[1]))
+    return ok(Agg())
+
+
+@model('<std::string::String as std::fmt::Write>::write_str')
+def _(I, a):
+    deref(a[0]).buf.extend(as_bytes(a[1]))
+    return ok(Agg())
+
+
+@model('<std::string::String as std::fmt::Write>::write_char')
+def _(I, a):
+    deref(a[0]).buf.extend(encode_char(a[1]))
+    return ok(Agg())
+
+
+@model('std::char::methods::<impl char>::from_u32', 'core::char::methods::<impl char>::from_u32', 'std::char::from_u32')
+def _(I, a):
+    v = deref(a[0])
+    if is_sym(v):
+        raise Unsupported('char::from_u32 of a symbolic value')
+    return some(v) if (0 <= v < 0xD800 or 0xE000 <= v <= 0x10FFFF) else NONE()
+
+
+def _ascii_graphic(I, a):
+    c = deref(a[0])
+    return z3.And(z3.UGE(c, 0x21), z3.ULE(c, 0x7e)) if is_sym(c) else 0x21 <= c <= 0x7e
+
+
+for _p in ('core::num::<impl u8>::is_ascii_graphic', 'core::char::methods::<impl char>::is_ascii_graphic'):
+    EXACT[_p] = _ascii_graphic
+
+
+@model('core::char::methods::<impl char>::to_lowercase', 'core::char::methods::<impl char>::to_uppercase')
+def _(I, a):
+    c = deref(a[0])
+    if is_sym(c) or c > 127:
+        raise Unsupported('Unicode case mapping of a char')
+    r = ord(chr(c).lower()) if 'lower' in I.cur_func else ord(chr(c).upper())
+    return Iter('into_iter', lst=[r], pos=0, end=1)
+
+
+@model('core::str::<impl str>::trim_ascii', 'core::str::<impl str>::trim_ascii_start', 'core::str::<impl str>::trim_ascii_end')
+def _(I, a):
+    s = as_str(a[0])
+    st, en = s.start, s.end
+    ws = (9, 10, 12, 13, 32)
+    if not I.cur_func.endswith('trim_ascii_end'):
+        while st < en and I.branch(b_or(b_eq(s.buf[st], v) for v in ws)):
+            st += 1
+    if not I.cur_func.endswith('trim_ascii_start'):
+        while en > st and I.branch(b_or(b_eq(s.buf[en - 1], v) for v in ws)):
+            en -= 1
+    return StrRef(s.buf, st, en)
+
+
+@model('std::vec::from_elem')
+def _(I, a):
+    n = a[1]
+    if is_sym(n):
+        raise Unsupported('vec![x; n] with symbolic n')
+    return VecObj([clone_val(a[0]) for _ in range(n)])
+
+
+@model('std::vec::Vec::resize')
+def _(I, a):
+    v = deref(a[0])
+    n = a[1]
+    if is_sym(n):
+        raise Unsupported('Vec::resize symbolic')
+    if n <= len(v.items):
+        del v.items[n:]
+    else:
+        v.items.extend(clone_val(a[2]) for _ in range(n - len(v.items)))
+    return Agg()
+
+
+@model('core::slice::<impl [T]>::chunks_exact')
+def _(I, a):
+    lst, st, en = as_list(a[0])
+    k = a[1]
+    if k == 0:
+        raise RustPanic('chunk size must be non-zero')
+    out = [SliceRef(lst, i, i + k) for i in range(st, en - k + 1, k)]
+    return Iter('into_iter', lst=out, pos=0, end=len(out))
+
+
+@model('core::slice::<impl [T]>::split')
+def _(I, a):
+    lst, st, en = as_list(a[0])
+    out, cur = [], st
+    for i in range(st, en):
+        if I.branch(I.call_closure(a[1], [Ref(Slot(lst, i))])):
+            out.append(SliceRef(lst, cur, i))
+            cur = i + 1
+    out.append(SliceRef(lst, cur, en))
+    return Iter('into_iter', lst=out, pos=0, end=len(out))
+
+
+@model('<str as std::cmp::PartialOrd>::partial_cmp')
+def _(I, a):
+    return some(ord_cmp(I, a))
+
+
+@intmethod('rotate_left', 'rotate_right')
+def _(I, ty, a):
+    x, n = deref(a[0]), deref(a[1])
+    if is_sym(x) or is_sym(n) or ty in SIGNED:
+        raise Unsupported('rotate on symbolic / signed values')
+    w = INT_W[ty]
+    n %= w
+    if 'rotate_right' in I.cur_func:
+        n = (w - n) % w
+    return ((x << n) | (x >> (w - n))) & ((1 << w) - 1) if n else x
+
+
+_entry_or_default_prev = EXACT['std::collections::hash_map::Entry::or_default']
+
+
+def _entry_or_default(I, a):
+    e = a[0]
+    if e.cell is None:
+        m = re.search(r'Entry::<(.*)>::or_default$', I.cur_func)
+        if not m:
+            raise Unsupported('Entry::or_default on a vacant entry (value type unknown here)')
+        parts, depth, cur = [], 0, ''
+        for ch in m.group(1):
+            depth += ch in '<([' 
+            depth -= ch in '>)]'
+            if ch == ',' and depth == 0:
+                parts.append(cur.strip())
+                cur = ''
+            else:
+                cur += ch
+        parts.append(cur.strip())
+        e.cell = [e.key, default_val(I, parts[-1])]
+        e.map.items.append(e.cell)
+    return Ref(Slot(e.cell, 1))
+
+
+EXACT['std::collections::hash_map::Entry::or_default'] = _entry_or_default
+
+
+@model('<u8 as std::convert::TryFrom>::try_from', '<u16 as std::convert::TryFrom>::try_from', '<u32 as std::convert::TryFrom>::try_from', '<u64 as std::convert::TryFrom>::try_from',
+       '<usize as std::convert::TryFrom>::try_from', '<i8 as std::convert::TryFrom>::try_from', '<i16 as std::convert::TryFrom>::try_from', '<i32 as std::convert::TryFrom>::try_from',
+       '<i64 as std::convert::TryFrom>::try_from', '<isize as std::convert::TryFrom>::try_from')
+def _(I, a):
+    v = deref(a[0])
+    ty = re.match(r'<(\w+) as', I.cur_func).group(1)
+    if is_sym(v):
+        raise Unsupported('TryFrom on a symbolic integer')
+    lo, hi = _rng(ty)
+    return ok(v) if lo <= v <= hi else err(Opaque('TryFromIntError'))
+
+
+@model('core::char::methods::<impl char>::is_ascii_hexdigit', 'core::num::<impl u8>::is_ascii_hexdigit')
+def _(I, a):
+    c = deref(a[0])
+    if is_sym(c):
+        return z3.Or(z3.And(z3.UGE(c, 48), z3.ULE(c, 57)), z3.And(z3.UGE(c, 65), z3.ULE(c, 70)), z3.And(z3.UGE(c, 97), z3.ULE(c, 102)))
+    return 48 <= c <= 57 or 65 <= c <= 70 or 97 <= c <= 102
+
+
+@model('core::slice::<impl [T]>::rchunks')
+def _(I, a):
+    lst, st, en = as_list(a[0])
+    k = a[1]
+    if k == 0:
+        raise RustPanic('chunk size must be non-zero')
+    out, e = [], en
+    while e > st:
+        out.append(SliceRef(lst, max(st, e - k), e))
+        e -= k
+    return Iter('into_iter', lst=out, pos=0, end=len(out))
+
+
+@model('core::slice::<impl [T]>::rotate_left', 'core::slice::<impl [T]>::rotate_right')
+def _(I, a):
+    lst, st, en = as_list(a[0])
+    k = a[1]
+    n = en - st
+    if k > n:
+        raise RustPanic('assertion failed: mid <= self.len()')
+    if I.cur_func.endswith('rotate_right'):
+        k = n - k
+    lst[st:en] = lst[st + k:en] + lst[st:st + k]
+    return Agg()
+
+
+@model('std::vec::Vec::splice')
+def _(I, a):
+    v = deref(a[0])
+    lo, hi = range_bounds(a[1], len(v.items))
+    if lo > hi or hi > len(v.items):
+        raise RustPanic('Vec::splice: range out of bounds')
+    it = as_iter(I, a[2])
+    new = []
+    while True:
+        x = it_next(I, it)
+        if x is None:
+            break
+        new.append(x)
+    removed = v.items[lo:hi]
+    v.items[lo:hi] = new
+    return Iter('into_iter', lst=removed, pos=0, end=len(removed))
+
+
+def _iter_cmp(I, a):
+    x, y = as_iter(I, a[0]), as_iter(I, a[1])
+    while True:
+        p, q = it_next(I, x), it_next(I, y)
+        if p is None or q is None:
+            return Enum('Ordering', 'Equal' if p is None and q is None else ('Less' if p is None else 'Greater'), [])
+        kp, kq = _sort_key_concrete(p, I), _sort_key_concrete(q, I)
+        if kp != kq:
+            return Enum('Ordering', 'Less' if kp < kq else 'Greater', [])
+
+
+ITER_METHODS['cmp'] = _iter_cmp
+ITER_METHODS['lt'] = lambda I, a: _iter_cmp(I, a).variant == 'Less'
+ITER_METHODS['le'] = lambda I, a: _iter_cmp(I, a).variant != 'Greater'
+ITER_METHODS['gt'] = lambda I, a: _iter_cmp(I, a).variant == 'Greater'
+ITER_METHODS['ge'] = lambda I, a: _iter_cmp(I, a).variant != 'Less'
+
+
+# VecDeque as a vector (front = index 0); BTreeMap / BTreeSet as association lists whose iteration sorts concrete keys
+@model('std::collections::VecDeque::new', 'std::collections::VecDeque::with_capacity')
+def _(I, a):
+    return VecObj()
+
+
+EXACT['std::collections::VecDeque::push_back'] = EXACT['std::vec::Vec::push']
+EXACT['std::collections::VecDeque::len'] = lambda I, a: len(deref(a[0]).items)
+EXACT['std::collections::VecDeque::is_empty'] = lambda I, a: not deref(a[0]).items
+
+
+@model('std::collections::VecDeque::push_front')
+def _(I, a):
+    deref(a[0]).items.insert(0, a[1])
+    return Agg()
+
+
+@model('std::collections::VecDeque::pop_front')
+def _(I, a):
+    v = deref(a[0])
+    return some(v.items.pop(0)) if v.items else NONE()
+
+
+@model('std::collections::VecDeque::pop_back')
+def _(I, a):
+    v = deref(a[0])
+    return some(v.items.pop()) if v.items else NONE()
+
+
+@model('std::collections::VecDeque::front', 'std::collections::VecDeque::front_mut')
+def _(I, a):
+    v = deref(a[0])
+    return some(Ref(Slot(v.items, 0))) if v.items else NONE()
+
+
+@model('std::collections::VecDeque::back', 'std::collections::VecDeque::back_mut')
+def _(I, a):
+    v = deref(a[0])
+    return some(Ref(Slot(v.items, len(v.items) - 1))) if v.items else NONE()
+
+
+@model('std::collections::VecDeque::iter')
+def _(I, a):
+    v = deref(a[0])
+    return Iter('slice_iter', lst=v.items, pos=0, end=len(v.items))
+
+
+# BTreeMap = association list (MapObj) whose iteration sorts the (concrete) keys; BTreeSet = SetObj with the same rule
+@model('std::collections::BTreeMap::new')
+def _(I, a):
+    m = MapObj()
+    m.sorted = True
+    return m
+
+
+@model('std::collections::BTreeSet::new')
+def _(I, a):
+    so = SetObj([])
+    so.sorted = True
+    return so
+
+
+for _n in ('insert', 'get', 'get_mut', 'contains_key', 'remove', 'len', 'is_empty', 'entry'):
+    EXACT['std::collections::BTreeMap::' + _n] = EXACT['std::collections::HashMap::' + _n]
+for _n in ('or_insert', 'or_insert_with', 'or_default', 'and_modify'):
+    EXACT['std::collections::btree_map::Entry::' + _n] = EXACT['std::collections::hash_map::Entry::' + _n]
+for _n in ('contains', 'is_empty', 'len', 'iter'):
+    EXACT['std::collections::BTreeSet::' + _n] = EXACT['std::collections::HashSet::' + _n]
+
+
+@model('std::collections::BTreeSet::insert')
+def _(I, a):
+    s_ = deref(a[0])
+    for kk in s_.items:
+        if I.branch(val_eq(I, kk, a[1])):
+            return False
+    s_.items.append(a[1])
+    return True
+
+
+@model('std::collections::BTreeMap::iter', 'std::collections::BTreeMap::into_iter', 'std::collections::BTreeMap::keys', 'std::collections::BTreeMap::values')
+def _(I, a):
+    m = deref(a[0])
+    ents = sorted(m.items, key=lambda e: _sort_key_concrete(e[0], I))
+    if I.cur_func.endswith('keys'):
+        lst = [Ref(Slot(e, 0)) for e in ents]
+    elif I.cur_func.endswith('values'):
+        lst = [Ref(Slot(e, 1)) for e in ents]
+    elif I.cur_func.endswith('into_iter') and not isinstance(a[0], Ref):
+        lst = [Agg([e[0], e[1]]) for e in ents]
+    else:
+        lst = [Agg([Ref(Slot(e, 0)), Ref(Slot(e, 1))]) for e in ents]
+    return Iter('into_iter', lst=lst, pos=0, end=len(lst))
+
+
+@model('std::vec::Vec::dedup_by_key')
+def _(I, a):
+    v = deref(a[0])
+    out, keys = [], []
+    for x in v.items:
+        cell = [x]
+        k = I.call_closure(a[1], [Ref(Slot(cell, 0))])
+        if out and I.branch(val_eq(I, keys[-1], k)):
+            continue
+        out.append(cell[0])
+        keys.append(k)
+    v.items[:] = out
+    return Agg()
+
+
+@model('core::char::methods::<impl char>::eq_ignore_ascii_case', 'core::num::<impl u8>::eq_ignore_ascii_case')
+def _(I, a):
+    def low(c):
+        if is_sym(c):
+            return z3.If(z3.And(z3.UGE(c, 65), z3.ULE(c, 90)), c + 32, c)
+        return c + 32 if 65 <= c <= 90 else c
+    return b_eq(low(deref(a[0])), low(deref(a[1])))
